@@ -158,6 +158,8 @@ theorem Node.slotPut_existing {n n' : Node} {k : PKey} {child c : Ref} (hg : n.s
           simp [Node.refs, List.getElem?_set_ne (Ne.symm hi')]
   | leaf v => simp [Node.slotGet] at hg
   | null => simp [Node.slotGet] at hg
+  | nd _ _ _ => simp [Node.slotGet] at hg
+  | buf _ => simp [Node.slotGet] at hg
 
 /-- **Setting a path to its current value gives a structurally equal tree** (strengthened for the
 induction: seen through any heap that agrees with the result on the new cells and with the old heap on a
@@ -195,7 +197,7 @@ theorem setPath_set_same (strict : Bool) : ∀ (p : Path) (h : Heap) (t cur : Re
         simp only at hg
         have hnull : n ≠ .null := by intro e; subst e; simp [Node.slotGet] at hsl
         obtain ⟨hm, child', hc, c, n', hext, hlt, hslot, hrec, hput, hcell, htq, hmc, hch', hsame⟩ :=
-          setPath_step hk1 hk2 hn hnull hs
+          setPath_step hk1 hk2 hn hnull (Node.slotGet_not_nd hsl) hs
         have hchild : child' = child := by
           rcases hslot with h1 | ⟨h1, _, _⟩
           · rw [hsl] at h1; cases h1; rfl
